@@ -14,7 +14,7 @@ Code modelled, function by function:
 * `fileConfig.DetermineSamplerKey`                 → `samplerKey`
 * `fileConfig.GetSamplerConfigForDestName`         → `lookupSampler` (decision side)
 * `fileConfig.GetSamplingKeyFieldsForDestName`     → `lookupFields`  (ingestion side; its own copy of the fallback)
-* `config.GetKeyFields`                            → `keyFields`     (`none` = the index panic on an empty field name)
+* `config.GetKeyFields`                            → `keyFields`     (empty field names are skipped)
 * `types.NewCoreFieldsUnmarshaler`                 → `ingestFields`
 * `Payload.extractCriticalFieldsFromBytes`         → `extract`       (trace-id / parent-id fields, sampling key fields, missing list)
 * `Payload.MemoizeFields`, `Payload.Get`           → `memoize`, `Pay.get`
@@ -117,14 +117,13 @@ def compact : List Str → List Str
   | a :: b :: t => if a = b then compact (b :: t) else a :: compact (b :: t)
   | l => l
 
-/-- `config.GetKeyFields`: (allFields, nonRootFields); `none` is the `field[0]` index panic. -/
+/-- `config.GetKeyFields`: (allFields, nonRootFields).  Empty field names are skipped (they used to
+hit the `field[0]` index panic; the result type is kept as an option, it is never `none` now). -/
 def keyFields (fields : List Str) : Option (List Str × List Str) :=
-  if fields = [] then some ([], [])
-  else if fields.any (· = []) then none
-  else
-    let root := fields.filterMap (fun f => if hasPrefix rootPrefix f then some (f.drop rootPrefix.length) else none)
-    let nonRoot := fields.filter (fun f => !hasPrefix rootPrefix f && !hasPrefix computedPrefix f)
-    if root = [] then some (nonRoot, nonRoot) else some (compact (root ++ nonRoot), nonRoot)
+  let fs := fields.filter (· ≠ [])
+  let root := fs.filterMap (fun f => if hasPrefix rootPrefix f then some (f.drop rootPrefix.length) else none)
+  let nonRoot := fs.filter (fun f => !hasPrefix rootPrefix f && !hasPrefix computedPrefix f)
+  if root = [] then some (nonRoot, nonRoot) else some (compact (root ++ nonRoot), nonRoot)
 
 /-- The field selection of `types.NewCoreFieldsUnmarshaler` for a request's (key, environment, dataset). -/
 def ingestFields (r : Rules) (pfx key env ds : Str) : Option (List Str) :=
@@ -145,8 +144,15 @@ structure Pay where
   hasParent : Bool := false          -- ¬ MetaRefineryRoot
   deriving DecidableEq, Repr
 
+/-- position of the first occurrence (`sliceContains`); `l.length` when absent -/
+def idxOf (l : List Str) (k : Str) : Nat :=
+  match l with
+  | [] => 0
+  | a :: t => if a = k then 0 else idxOf t k + 1
+
 structure Ex where
-  traceId : Str := []
+  cand : Str := []                   -- traceIDFromField
+  best : Option Nat := none          -- traceIDFieldIdx; `none` is the initial len(traceIdFieldNames): every configured index is below it
   hasParent : Bool := false
   memo : AList Str Val := []
   found : Nat := 0
@@ -156,19 +162,31 @@ def keyStep (skf : List Str) (st : Ex) (k : Str) (v : Val) : Ex :=
     { st with memo := AList.put st.memo k v, found := st.found + 1 }
   else st
 
-/-- one map entry of `extractCriticalFieldsFromBytes` -/
+/-- `idx < traceIDFieldIdx` -/
+def belowBest (st : Ex) (i : Nat) : Bool :=
+  match st.best with
+  | none => true
+  | some b => decide (i < b)
+
+/-- one map entry of `extractCriticalFieldsFromBytes`: a string under a configured trace-id name is
+consumed while its configured index is below the best so far (its value is taken only if
+non-empty); otherwise a string under a parent-id name is consumed; everything else may be a
+sampling key field. -/
 def exStep (tids pids skf : List Str) (st : Ex) (kv : Str × Val) : Ex :=
   match kv.2 with
   | .str s =>
-    if st.traceId = [] ∧ kv.1 ∈ tids then { st with traceId := s }
+    if kv.1 ∈ tids ∧ belowBest st (idxOf tids kv.1) = true then
+      { st with cand := if s = [] then st.cand else s,
+                best := if s = [] then st.best else some (idxOf tids kv.1) }
     else if kv.1 ∈ pids then { st with hasParent := st.hasParent || decide (s ≠ []) }
     else keyStep skf st kv.1 kv.2
   | v => keyStep skf st kv.1 v
 
-/-- `extractCriticalFieldsFromBytes` on a fresh payload. -/
+/-- `extractCriticalFieldsFromBytes` on a fresh payload (no `meta.trace_id`: the trace id is the
+best candidate, filled in after the loop). -/
 def extract (tids pids skf : List Str) (data : List (Str × Val)) : Pay :=
   let st := data.foldl (exStep tids pids skf) {}
-  { data := data, memo := st.memo, traceId := st.traceId, hasParent := st.hasParent,
+  { data := data, memo := st.memo, traceId := st.cand, hasParent := st.hasParent,
     missing := if st.found < skf.length then skf.filter (fun f => AList.get st.memo f = none) else [] }
 
 def memoStep (toFind : List Str) (acc : AList Str Val × Nat) (kv : Str × Val) : AList Str Val × Nat :=
